@@ -72,6 +72,18 @@ TASKS = [
     ('spec-placeholder-under-negation', 'spec', 'spec: forall X (p(X) <-> q(X) and not X > n). assumption: not n < 1. '
      'spec: not exists X (p(X) and not (X <= n and not X = m)) or p(m).', 'p(X) :- q(X), X < n.',
      'input: n -> integer. input: m -> general. input: q/1. output: p/1. assumption: not n > 100. assumption: forall X (q(X) -> not not X != m).'),
+    # constraints whose body is a single atom (after simplification they look like an empty completed definition): on a
+    # private predicate, on a 0-ary private predicate, on an input, on an output; false and true claims
+    ('constraint-on-private-atom-false', 'program', 'p(X) :- q(X).', 'p(X) :- q(X). bad(X) :- q(X), s(X). :- bad(X).',
+     'input: q/1. input: s/1. output: p/1.'),
+    ('constraint-on-private-atom-true', 'program', 'p(X) :- q(X). :- q(X), s(X).', 'p(X) :- q(X). bad(X) :- q(X), s(X). :- bad(X).',
+     'input: q/1. input: s/1. output: p/1.'),
+    ('constraint-on-private-proposition-false', 'program', 'p(X) :- q(X).', 'p(X) :- q(X). bad :- q(X), X < 0. :- bad.',
+     'input: q/1. output: p/1.'),
+    ('constraint-on-input-and-output-atoms', 'program', 'p(X) :- q(X). :- s(X).', 'p(X) :- q(X). :- s(X). :- p(5).',
+     'input: q/1. input: s/1. output: p/1.'),
+    ('constraint-on-private-atom-in-spec-program', 'program', 'p(X) :- q(X). bad(X) :- q(X), s(X). :- bad(X).', 'p(X) :- q(X).',
+     'input: q/1. input: s/1. output: p/1.'),
     # false claims (refutable obligations): weakened or vacuous premises cannot hide behind a true claim
     ('false-placeholder-integer', 'program', 'p(1..n).', 'p(X) :- X = 0..n.', 'input: n -> integer. output: p/1. assumption: n >= 0.'),
     ('false-placeholder-general', 'program', 'p(X) :- q(X), X != c.', 'p(X) :- q(X), not r(X). r(c). r(0).', 'input: c. input: q/1. output: p/1.'),
@@ -356,7 +368,7 @@ def check_item(item):
                      detail='; '.join(issues), replay={'request': render(req), 'expected': render(resp)})
             out.append(r)
             continue
-        aliases = symbol_aliases(problems)
+        aliases = symbol_aliases(problems, (left, right, ug))
         want_dirs = {'universal': ['forward', 'backward'], 'forward': ['forward'], 'backward': ['backward']}[direction]
         for d in want_dirs:
             probs = [p for p in problems if direction_of(p) == d]
